@@ -66,6 +66,12 @@ B('c01_provided_without_resources', ['C01', 'C04'], {'C01': 'R01.a', 'C04': 'R04
   (R, "                            'resources': set(self.resources)}", "                            }"))
 B('c01_next_test_dropped', ['C01', 'C04'], {'C01': 'R01.b', 'C04': 'R04.e'},
   (C, "    if 'next' in get_arg_names(render):\n        raise NameError(_next_exc_msg % render)\n", ''))
+B('c01_alias_inplace_union', ['C01', 'C04'], {'C01': 'R01.d', 'C04': 'R04.e'},
+  (C, 'ep_avail = req_avail | req_all_provides', 'ep_avail = req_avail\n    ep_avail |= req_all_provides'))
+B('c02_params_alias_base', ['C02'], 'R02.c',
+  (A, '            params = dict(base_params, **path_params)', '            params = base_params\n            params.update(path_params)'))
+T('c01_twin_copy_then_inplace', ['C01', 'C04'],
+  (C, 'ep_avail = req_avail | req_all_provides', 'ep_avail = set(req_avail)\n    ep_avail |= req_all_provides'))
 T('c01_twin_difference_method', ['C01'],
   (S, 'required_sofar |= set(undefaulted) - provided_sofar', 'required_sofar |= set(undefaulted).difference(provided_sofar)'))
 T('c01_twin_ior_update', ['C01'],
@@ -373,6 +379,43 @@ B('c13_call_bypasses_stack', ['C13'], 'R13.a',
 T('c13_twin_rename_params', ['C13'],
   (A, '    def __call__(self, environ, start_response):\n        return self._dispatch_wsgi(environ, start_response)',
       '    def __call__(self, env, start):\n        return self._dispatch_wsgi(env, start)'))
+
+# ------------------------------------------------------------------ variants distilled from the sub-agents' seeded changes
+B('s_update_methods_adopts_route_set', ['C06', 'C08', 'C12'], {'C06': 'R06.d', 'C08': 'R08.d', 'C12': 'R12.a'},
+  (A, '        if methods:\n            self.allowed_methods.update(methods)', '        if methods:\n            if not self.allowed_methods:\n                self.allowed_methods = methods\n            else:\n                self.allowed_methods.update(methods)'))
+B('s_shared_base_params', ['C12', 'C08'], {'C12': 'R12.a', 'C08': 'R08.d'},
+  (A, '        base_params = dict(self.resources,\n                           request=request,\n                           _application=self,\n                           _dispatch_state=dispatch_state)\n',
+      '        base_params = self._base_params\n        base_params.update(request=request, _dispatch_state=dispatch_state)\n'))
+B('s_head_drops_file_wrapper', ['C13'], 'R13.c',
+  (ST, "                   file_wrapper=request.environ.get('wsgi.file_wrapper',\n                                                    FileWrapper))\n        return resp\n\n\nclass StaticApplication",
+       "                   file_wrapper=request.environ.get('wsgi.file_wrapper',\n                                                    FileWrapper))\n        if request.method == 'HEAD':\n            resp.response = []\n        return resp\n\n\nclass StaticApplication"))
+B('s_none_default_dereferenced', ['C15'], 'R15.a',
+  (STATS, "            resp_mime_type = getattr(e, 'content_type', '').partition(';')[0]", "            resp_mime_type = getattr(e, 'content_type', None).partition(';')[0] or ''"))
+B('s_gzip_membership_not_quality', ['C15'], 'R15.d',
+  (GZ, "        if resp.content_encoding or not request.accept_encodings['gzip']:", "        if resp.content_encoding or 'gzip' not in request.accept_encodings:"))
+B('s_jsonp_encoder_without_dev_mode', ['C17'], 'R17.d',
+  (RS, '        self.qp_name = qp_name\n        super(JSONPRender, self).__init__(*a, **kw)\n',
+       '        self.qp_name = qp_name\n        super(JSONPRender, self).__init__(*a, **kw)\n        self.json_encoder = ClasticJSONEncoder(encoding=self.encoding, indent=None)\n'))
+B('s_render_error_skips_adapt', ['C09'], 'R09.b',
+  (E, '        best_match = request.accept_mimetypes.best_match(MIME_SUPPORT_MAP)\n        _error.adapt(best_match)\n        return _error\n\n    def uncaught_to_response',
+      '        best_match = request.accept_mimetypes.best_match(MIME_SUPPORT_MAP)\n        if best_match is None:\n            return _error\n        _error.adapt(best_match)\n        return _error\n\n    def uncaught_to_response'))
+B('s_bind_all_generator', ['C11', 'C01'], {'C11': 'R11.b', 'C01': 'R01.a'},
+  (A, '            bound_rt = rt.bind(app, **kwargs)\n            ret.append(bound_rt)\n\n        return ret', '            yield rt.bind(app, **kwargs)'))
+B('s_format_injection', ['C08', 'C09'], {'C08': 'R08.e', 'C09': 'R09.c'},
+  (E, "        if params['detail']:\n            lines.append('<p>{detail}</p>')", "        if params['detail']:\n            lines.append('<p>%s</p>' % params['detail'])"))
+B('s_first_last_locals', ['C17'], 'R17.b',
+  (RS, "        elif bytestr[:1] == b'{' and bytestr[-1:] == b'}':\n            return True\n        elif bytestr[:1] == b'[' and bytestr[-1:] == b']':",
+       "        first, last = bytestr[0], bytestr[-1]\n        if first == b'{' and last == b'}':\n            return True\n        elif first == b'[' and last == b']':"))
+B('s_index_or_len', ['C06'], 'R06.a',
+  (A, '        if index is None:\n            index = len(self.routes)', '        index = index or len(self.routes)'))
+B('s_normalize_single_pass', ['C07'], 'R07.d',
+  (R, "    ret = [x for x in path.split('/') if x]\n    if not ret:\n        return '/'\n    ret = [''] + ret\n    if is_branch:\n        ret.append('')\n    return '/'.join(ret)",
+      "    path = path.replace('//', '/').strip('/')\n    if not path:\n        return '/'\n    return '/' + path + ('/' if is_branch else '')"))
+T('s_twin_describe_then_count', ['C19'],
+  (STATS, "        desc_dict['count'] = hits.total_count  # need to account for reservoir count", "        desc_dict.update(count=hits.total_count)  # need to account for reservoir count"))
+B('s_count_overwritten_by_describe', ['C19'], 'R19.b',
+  (STATS, "        desc_dict['count'] = hits.total_count  # need to account for reservoir count\n", ''),
+  (STATS, '        cur.update(desc_dict)', "        cur['count'] = hits.total_count\n        cur.update(desc_dict)"))
 
 # ------------------------------------------------------------------ C14
 B('c14_join_raw_path', ['C14'], 'R14.a', (ST, 'full_path = pjoin(sr, rel_path)', 'full_path = pjoin(sr, path)'))
